@@ -862,7 +862,7 @@ Section LsfCase.
         rewrite <- Er, <- Et, <- Eb, <- Ec. apply reads_as_jsrun.
       + intro E. rewrite E in S. discriminate S.
     - (* token *)
-      pose proof (pieces_tok_wf ps f W I) as TW.
+      pose proof (pieces_tok_wf st ps f W I) as TW.
       destruct (tok_procs_printed f TW) as [_ [P _]].
       destruct (jt_read c HP LP (snd (tok_vals f)) _ _ eq_refl P) as [R S]. simpl seg_text. unfold tsub_lsf. split.
       + unfold launch_ok_lsf. fold st in R. rewrite R. unfold want_lsf. fold st.
@@ -873,3 +873,140 @@ Section LsfCase.
       + intro E. rewrite E in S. discriminate S.
   Qed.
 End LsfCase.
+
+(** * the walltime of an LSF step *)
+Lemma colon_safe : safe_char 58 = true. Proof. reflexivity. Qed.
+
+Lemma lsf_wall_facts : forall c, H15_parts c -> lsf_parts c ->
+  exists w, lsf_walltime (lsf_w0 (c_step c)) = Ok w
+    /\ (w = [] -> decl (st_res (c_step c)) (s "walltime") = None)
+    /\ (w <> [] -> safe_word w)
+    /\ lsf_walltime_ok (effective (c_batch c) (c_step c) RWalltime) (match w with [] => None | _ => Some w end) = true.
+Proof.
+  intros c HP LP. set (st := c_step c).
+  assert (EF : effective (c_batch c) st RWalltime = option_map render (decl (st_res st) (s "walltime"))).
+  { unfold effective. simpl batch_level. cbv iota. rewrite declared_render by discriminate.
+    change (key_name RWalltime) with (s "walltime"). destruct (decl (st_res st) (s "walltime")); auto. }
+  rewrite EF. pose proof (lp_wall c LP) as LW. fold st in LW.
+  rewrite declared_render in LW by discriminate. change (key_name RWalltime) with (s "walltime") in LW.
+  unfold lsf_w0. fold st.
+  destruct (decl (st_res st) (s "walltime")) as [v|] eqn:D.
+  - simpl option_map in *. set (d := render v) in *.
+    assert (DN : d <> []).
+    { unfold d. apply render_truthy_nonnil. unfold decl in D. destruct (lookup (s "walltime") (st_res st)); try discriminate.
+      destruct (truthy v0) eqn:T; inversion D; subst; auto. }
+    assert (SD : safe_word d).
+    { apply (decl_safe_word (st_res st) RWalltime); auto.
+      pose proof (hp_vals c HP) as V. rewrite forallb_forall in V. apply V. simpl. tauto. }
+    destruct (is_hms d) eqn:HMS.
+    + unfold is_hms in HMS. destruct (split_on 58 d) as [|h [|m [|sec [|x r]]]] eqn:SP; try discriminate.
+      unfold is_hms in LW. rewrite SP in LW. cbn [forallb] in LW.
+      apply andb_true_iff in LW. destruct LW as [Dh LW]. apply andb_true_iff in LW. destruct LW as [Dm LW].
+      apply andb_true_iff in LW. destruct LW as [Dsec _].
+      destruct (lsf_walltime_hms d h m sec SP Dh Dm Dsec) as [r [E [HM [a [bb [ER [Da Db]]]]]]].
+      exists r. split; auto. split; [|split].
+      * intro Z. subst r. destruct a; discriminate.
+      * intros _. subst r. apply forallb_safe_word. destruct a; discriminate.
+        apply all_digits_forall in Da. apply all_digits_forall in Db.
+        assert (X : forall t, forallb is_digit t = true -> forallb safe_char t = true).
+        { intros t Ht. rewrite forallb_forall in *. intros y I. apply digit_safe. auto. }
+        rewrite forallb_app. cbn [forallb]. rewrite (X a Da), (X bb Db). reflexivity.
+      * assert (RN : r <> []) by (subst r; destruct a; discriminate).
+        destruct r as [|r0 r1]; try congruence. unfold lsf_walltime_ok.
+        assert (HD : is_hms d = true) by (unfold is_hms; rewrite SP; reflexivity).
+        rewrite HD. rewrite HM. unfold hms_minutes. rewrite SP. rewrite !py_nat_digits by auto.
+        apply N.eqb_refl.
+    + exists d. rewrite lsf_walltime_other by auto. split; auto. split; [|split].
+      * intro Z. congruence.
+      * auto.
+      * destruct d as [|d0 d1]; try congruence. unfold lsf_walltime_ok. rewrite HMS. apply str_eqb_refl.
+  - exists []. split. reflexivity. split; auto. split. congruence. reflexivity.
+Qed.
+
+(** * the LSF script, read back *)
+Section LsfScript.
+  Variable c : case.
+  Hypothesis HP : H15_parts c.
+  Hypothesis LP : lsf_parts c.
+  Hypothesis BP : batch_parts (c_be c) (c_batch c).
+  Hypothesis BE : c_be c = Lsf.
+  Hypothesis NK6b : K6_lsf_header c = false.
+  Hypothesis NK6c : K6_lsf_nodes_only c = false.
+  Let st := c_step c.
+  Let b := c_batch c.
+  Variables vh vb vq : val.
+  Hypothesis Hh : lookup (s "host") (b_kw b) = Some vh.
+  Hypothesis Hb : lookup (s "bank") (b_kw b) = Some vb.
+  Hypothesis Hq : lookup (s "queue") (b_kw b) = Some vq.
+  Hypothesis Sb : truthy vb = true /\ safe_tok (render vb) = true.
+  Hypothesis Sq : truthy vq = true /\ safe_tok (render vq) = true.
+  Variable w : str.
+  Hypothesis Hw : lsf_walltime (lsf_w0 st) = Ok w.
+  Hypothesis Hw_nil : w = [] -> decl (st_res st) (s "walltime") = None.
+  Hypothesis Hw_safe : w <> [] -> safe_word w.
+  Hypothesis Hw_ok : lsf_walltime_ok (effective b st RWalltime) (match w with [] => None | _ => Some w end) = true.
+
+  Let lines := lsf_lines b st vh vb vq w.
+  Definition finl (ps : list piece) : str := segs_text (map (final_seg (tsub_lsf c) (bsub_lsf c)) ps).
+  Let qv := match decl (st_res st) (s "queue") with Some v => v | None => vq end.
+  Let bv := match decl (st_res st) (s "bank") with Some v => v | None => vb end.
+  Let rv_ := match decl (st_res st) (s "reservation") with Some v => Some v | None => decl (b_kw b) (s "reservation") end.
+  Let jn := under (st_name st).
+
+  Lemma lsf_exec_shell : lsf_exec b = shell_of (b_kw b).
+  Proof. reflexivity. Qed.
+
+  Lemma jn_safe : safe_word jn.
+  Proof.
+    pose proof (hp_name c HP) as NM. fold st in NM. unfold safe_name in NM.
+    assert (NN : st_name st <> []). { intro Z. rewrite Z in NM. discriminate NM. }
+    assert (F : forallb (fun x => safe_char x && negb (x =? 47)) (under (st_name st)) = true).
+    { destruct (st_name st). congruence. exact NM. }
+    apply forallb_safe_word. apply under_nonnil. auto.
+    rewrite forallb_forall in *. intros x I. apply F in I. apply andb_true_iff in I. tauto.
+  Qed.
+
+  Lemma lsf_nodes_safe : safe_word (render (lsf_nodes b st)).
+  Proof.
+    unfold lsf_nodes. destruct (decl (st_res st) (s "nodes")) as [v|] eqn:D.
+    - apply digits_word. apply (decl_count_word (st_res st) RNodes); auto. apply (hp_nodes c HP).
+    - unfold get_default. pose proof (lp_bnodes c LP) as BN. fold b in BN.
+      destruct (lookup (s "nodes") (b_kw b)) as [v|] eqn:L.
+      + apply digits_word. apply (decl_count_word (b_kw b) RNodes). apply (bp_nodes _ _ BP).
+        unfold decl. change (key_name RNodes) with (s "nodes"). rewrite L, BN. auto.
+      + apply one_word.
+  Qed.
+
+  Lemma lsf_pairs_read :
+    RLb lines = lsf_pairs st w (lsf_nodes b st) qv bv rv_ /\ CLb lines = true.
+  Proof.
+    pose proof (hp_nodup c HP) as ND. pose proof (lp_nojn c LP) as NJ. pose proof (lp_noout c LP) as NO.
+    pose proof (lp_noerr c LP) as NE. fold st in ND, NJ, NO, NE.
+    apply lsf_lines_read.
+    - apply bh_nodes; auto.
+    - apply bh_queue; auto.
+    - apply bh_bank; auto.
+    - apply bh_walltime; auto.
+    - apply bh_jobname; auto.
+    - apply bh_output; auto.
+    - apply bh_error; auto.
+    - apply bh_reservation; auto.
+    - apply lsf_nodes_safe.
+    - unfold qv. destruct (decl (st_res st) (s "queue")) as [v|] eqn:D.
+      + apply (decl_safe_word (st_res st) RQueue); auto.
+        pose proof (hp_vals c HP) as V. rewrite forallb_forall in V. apply V. simpl. tauto.
+      + apply safe_tok_word. tauto.
+    - unfold bv. destruct (decl (st_res st) (s "bank")) as [v|] eqn:D.
+      + apply (decl_safe_word (st_res st) RBank); auto.
+        pose proof (hp_vals c HP) as V. rewrite forallb_forall in V. apply V. simpl. tauto.
+      + apply safe_tok_word. tauto.
+    - auto.
+    - apply jn_safe.
+    - intros v E. unfold rv_ in E. destruct (decl (st_res st) (s "reservation")) as [v'|] eqn:D.
+      + inversion E; subst. apply (decl_safe_word (st_res st) RReservation); auto.
+        pose proof (hp_vals c HP) as V. rewrite forallb_forall in V. apply V. simpl. tauto.
+      + apply (decl_safe_word (b_kw b) RReservation); auto.
+        pose proof (bp_vals _ _ BP) as V. rewrite forallb_forall in V. apply V. simpl. tauto.
+    - rewrite lsf_exec_shell. apply (shell_safe (c_be c)). auto.
+  Qed.
+End LsfScript.
